@@ -42,6 +42,9 @@ def install(E):
         f = invs.get(key)
         if f is None: f = invs[key] = z3.Function('inv_%s_%s' % (fname, len(invs)), term.sort(), arg.sort())
         e.ax(('inj', fname, term.get_id()), f(term) == arg)
+        if z3.is_app(term) and z3.is_expr(arg):       # remembered for the syntactic disequality test (core.sdiff)
+            for j in range(term.num_args()):
+                if term.arg(j).eq(arg): e.inj_pos.setdefault(term.decl().name(), set()).add(j)
     E.inj = inj
 
     # group operations: ring arithmetic over Z ('alg', needed for the BDHKE/DLEQ identities of C10) or
@@ -49,6 +52,8 @@ def install(E):
     # only "same key, same point" reasoning is needed)
     pmul_f = z3.Function('pmul', IntS, IntS, IntS)
     padd_f = z3.Function('padd', IntS, IntS, IntS)
+    paddl_f = z3.Function('padd_l', IntS, IntS)
+    paddr_f = z3.Function('padd_r', IntS, IntS)
     pdivk_f = z3.Function('pdivk', IntS, IntS, IntS)
     pdivp_f = z3.Function('pdivp', IntS, IntS, IntS)
     def pmul(e, k, P):
@@ -63,8 +68,14 @@ def install(E):
         if getattr(e, 'crypto_mode', 'alg') == 'alg': return a + b
         a, b = z3.simplify(a), z3.simplify(b)
         # commutativity by a canonical argument order; the structural hash is stable (AST ids are not: freed terms get new ids)
-        ka, kb = (a.hash(), a.sexpr()) if a.hash() == b.hash() else (a.hash(), ''), (b.hash(), b.sexpr()) if a.hash() == b.hash() else (b.hash(), '')
-        return padd_f(a, b) if ka <= kb else padd_f(b, a)
+        # (function symbol first, so that sums of the same shape - Y + rG - always list their operands in the same order)
+        na = a.decl().name() if z3.is_app(a) else ''; nb = b.decl().name() if z3.is_app(b) else ''
+        same = a.hash() == b.hash()
+        ka, kb = (na, a.hash(), a.sexpr() if same else ''), (nb, b.hash(), b.sexpr() if same else '')
+        t = padd_f(a, b) if ka <= kb else padd_f(b, a)
+        if getattr(e, 'padd_inj', False):
+            e.ax(('paddinj', t.get_id()), paddl_f(t) == t.arg(0), paddr_f(t) == t.arg(1))
+        return t
     def pubof(e, k):
         if getattr(e, 'crypto_mode', 'alg') == 'alg': return k
         return pmul(e, k, z3.IntVal(1))
